@@ -231,6 +231,7 @@ func init() {
 			"on one root array, slab size per case from {256,512,1024,32768,random}; every return value compared with a Go slice model after every operation, " +
 			"structure walked after every operation, API deep-compare on fresh handles, cold reopen by root id after commits. " +
 			"non-trivial = the array spanned >=3 slabs at depth >=2 and the storage proxy saw >=1 operation that created tree slabs and >=1 that removed slabs; distinct by hash(config, operation list). " +
+			"Every 43rd case is a DEEP-TREE case (slab size 256..300 incl. sizes whose index slabs split at an even child count, thousands of small elements, depth >= 4). " +
 			"The last 32 cases are a SMALL-SCOPE EXHAUSTIVE exploration at slab size 256: every sequence of 4 (quick) / 5 (thorough) operations over a 13-operation alphabet (append tiny / third / maximal / maximal+1-byte element, insert front / middle, set middle, remove front / middle / back) from 3 start states, with model, structure, reachability, byte-level and API deep comparison after every operation and a cold rebuild at the end of every sequence",
 		Assumptions: []string{
 			"one canonical handle per container (a client that caches one object per value id); handles of descendants are re-acquired after a parent handle is refreshed",
@@ -245,7 +246,7 @@ func init() {
 		},
 		Run:           runC01,
 		MinNonTrivial: 8,
-		Mandatory:     []string{"ops_that_created_slabs", "ops_that_removed_slabs", "cold_reopens", "rejected_requests", "small-scope-sequences-array"},
+		Mandatory:     []string{"ops_that_created_slabs", "ops_that_removed_slabs", "cold_reopens", "rejected_requests", "small-scope-sequences-array", "deep-tree-cases-depth>=4"},
 	})
 	register(&Prop{
 		ID:    "C02",
@@ -253,6 +254,7 @@ func init() {
 		Rule: "cases = seeded operation histories (set/update/remove/get/has/settype/popiterate incl. absent keys next to present ones, keys of every scalar kind, strings around the key inline limit, wrapped keys, nested containers as values) " +
 			"on one root map under the default digester or an order-revealing harness digester; every return value compared with a Go map model after every operation, structure walked after every operation (incl. digest-of-key = filing position), cold reopen after commits. " +
 			"non-trivial = the map spanned >=3 slabs, >=1 slab-creating and >=1 slab-removing operation, >=1 absent-key lookup; distinct by hash(config, operation list). " +
+			"Every 43rd case is a DEEP-TREE case (as in C01). " +
 			"The last 32 cases are a SMALL-SCOPE EXHAUSTIVE exploration at slab size 256: every sequence of 3 (quick) / 4 (thorough) operations over an 18-operation alphabet (set tiny / set maximal / remove for each of 6 keys whose digests collide on level 0, on levels 0+1, or not at all) from 3 start states, with the same monitors after every operation",
 		Assumptions: []string{
 			"one canonical handle per container; nested maps always use the default digester (the library re-creates them that way)",
@@ -266,7 +268,7 @@ func init() {
 		},
 		Run:           runC02,
 		MinNonTrivial: 8,
-		Mandatory:     []string{"ops_that_created_slabs", "ops_that_removed_slabs", "cold_reopens", "absent-get", "small-scope-sequences-map"},
+		Mandatory:     []string{"ops_that_created_slabs", "ops_that_removed_slabs", "cold_reopens", "absent-get", "small-scope-sequences-map", "deep-tree-cases-depth>=4"},
 	})
 }
 
@@ -335,6 +337,11 @@ func runC01(c *CaseCtx) *CaseResult {
 		}
 		return runSmallScope(c, "array", depth, c.Case-base, ssParts)
 	}
+	if c.Case%43 == 42 {
+		// deep trees (depth >= 4, index slabs splitting / merging / borrowing among themselves)
+		res, _ := runDeepCase(c, "array", rand.New(rand.NewSource(c.CaseSeed()^0xdee9)))
+		return res
+	}
 	cc := basicCase(c, "array")
 	if c.Case%11 == 10 {
 		// drain with bulk pop and regrow
@@ -353,6 +360,11 @@ func runC02(c *CaseCtx) *CaseResult {
 			depth = 4
 		}
 		return runSmallScope(c, "map", depth, c.Case-base, ssParts)
+	}
+	if c.Case%43 == 42 {
+		res, w := runDeepCase(c, "map", rand.New(rand.NewSource(c.CaseSeed()^0xdee9)))
+		res.NonTrivial = res.NonTrivial && w.stats.Extra["absent-get"]+w.stats.Extra["absent-has"] > 0
+		return res
 	}
 	cc := basicCase(c, "map")
 	r := rand.New(rand.NewSource(c.CaseSeed() ^ 0xd16))
